@@ -10,6 +10,7 @@ import (
 	"crypto/sha256"
 	"encoding/hex"
 	"fmt"
+	sdkv4 "github.com/aws/aws-sdk-go-v2/aws/signer/v4"
 	"io"
 	"net"
 	"net/http"
@@ -295,4 +296,24 @@ func (g *GW) MustStatus(r *Resp, want int, what string) {
 	if r.Err != nil || r.Status != want {
 		g.T.Fatalf("%s: want %d, got %s", what, want, r)
 	}
+}
+
+// Presign returns the request target (path and query) of a presigned URL for method and target, signed with the AWS
+// SDK's own signer the way a client does it (UNSIGNED-PAYLOAD, host as the only signed header).
+func (g *GW) Presign(c Cred, method, target string, expires int, at time.Time) string {
+	g.T.Helper()
+	sep := "?"
+	if strings.Contains(target, "?") {
+		sep = "&"
+	}
+	req, err := http.NewRequest(method, "http://"+g.Addr+target+sep+"X-Amz-Expires="+fmt.Sprint(expires), nil)
+	if err != nil {
+		g.T.Fatalf("presign: %v", err)
+	}
+	uri, _, err := sdkv4.NewSigner().PresignHTTP(context.Background(), aws.Credentials{AccessKeyID: c.Access, SecretAccessKey: c.Secret},
+		req, "UNSIGNED-PAYLOAD", "s3", g.Region, at, func(o *sdkv4.SignerOptions) { o.DisableURIPathEscaping = true })
+	if err != nil {
+		g.T.Fatalf("presign: %v", err)
+	}
+	return strings.TrimPrefix(uri, "http://"+g.Addr)
 }
